@@ -2,10 +2,10 @@
 # usage: bin/mx_batch.sh Cxx [Cxx ...] — confirm the sub-agents' new changes of these properties (worktrees under /tmp/seedw), store them
 # under /verif/seeded, and run the seed matrix for them on a scratch copy of /verif and /repo (so /repo itself stays untouched)
 export GOFLAGS=-mod=mod GOPROXY=off GOSUMDB=off
-mkdir -p /tmp/mx/log
+mkdir -p ${MXDIR:-/tmp/mx}/log
 if [ -z "$SKIP_CONFIRM" ]; then
 for p in "$@"; do
-  ( python3 /verif/bin/confirm_seed.py $p /tmp/seedw/$p > /tmp/mx/log/confirm-$p.log 2>&1 ) &
+  ( python3 /verif/bin/confirm_seed.py $p /tmp/seedw/$p > ${MXDIR:-/tmp/mx}/log/confirm-$p.log 2>&1 ) &
   while [ $(jobs -r | wc -l) -ge 4 ]; do sleep 2; done
 done
 wait
@@ -13,7 +13,7 @@ fi
 only=""
 for p in "$@"; do for d in /verif/seeded/$p-[4-9]; do [ -d "$d" ] && only="$only $(basename $d)"; done; done
 echo "confirmed:$only"
-rsync -a --delete --exclude .git --exclude seeded --exclude replays /verif/ /tmp/mx/verif/
-mkdir -p /tmp/mx/verif/replays
-rm -rf /tmp/mx/repo && git clone -q /repo /tmp/mx/repo
-cd /tmp/mx/verif && VERIF_ROOT=/tmp/mx/verif VERIF_REPO=/tmp/mx/repo VERIF_SEEDS=/verif/seeded VERIF_ONLY="$only" python3 /tmp/mx/verif/bin/seed_matrix.py
+rsync -a --delete --exclude .git --exclude seeded --exclude replays /verif/ ${MXDIR:-/tmp/mx}/verif/
+mkdir -p ${MXDIR:-/tmp/mx}/verif/replays
+rm -rf ${MXDIR:-/tmp/mx}/repo && git clone -q /repo ${MXDIR:-/tmp/mx}/repo
+cd ${MXDIR:-/tmp/mx}/verif && VERIF_ROOT=${MXDIR:-/tmp/mx}/verif VERIF_REPO=${MXDIR:-/tmp/mx}/repo VERIF_SEEDS=/verif/seeded VERIF_ONLY="$only" python3 ${MXDIR:-/tmp/mx}/verif/bin/seed_matrix.py
